@@ -168,11 +168,18 @@ type docSet struct {
 	modes    []int
 	// nCore: documents [0,nCore) are the node-bounded and wide documents; member documents follow
 	nCore int
+	// nSmall: documents [0,nSmall) have at most 4 nodes (Docs enumerates by node count)
+	nSmall int
 }
 
 func newDocSet(spec gen.DocSpec, modes []int) *docSet {
 	base := append(append(gen.Docs(spec), gen.WideDocs()...), gen.MemberDocs()...)
 	ds := &docSet{modes: modes, nCore: len(base) - len(gen.MemberDocs())}
+	small := spec
+	if small.MaxNodes > 4 {
+		small.MaxNodes = 4
+	}
+	ds.nSmall = len(gen.Docs(small))
 	for _, d := range base {
 		ds.text = append(ds.text, gen.JSON(d))
 	}
@@ -353,6 +360,9 @@ func (j *productJob) RunUnit(i int, c *run.Ctx) {
 	if u.L.CoreDocs && j.ds.nCore > 0 && j.ds.nCore < nDocs {
 		nDocs = j.ds.nCore
 	}
+	if u.L.SmallDocs && j.ds.nSmall > 0 && j.ds.nSmall < nDocs {
+		nDocs = j.ds.nSmall
+	}
 	for _, m := range modes {
 		for di := 0; di < nDocs; di++ {
 			c.Tick()
@@ -432,19 +442,24 @@ func replayProduct(cs map[string]interface{}, judge func(p string, ast *gen.Path
 }
 
 func stdLadders(tier string) []gen.Ladder {
+	atoms := gen.Ladder{Alpha: gen.AtomFilters(true), Depth: 1, Fixed: []gen.Step{gen.Name("c")}}
 	if tier == "thorough" {
+		atoms.Funcs, atoms.FuncDepth = [][]string{{"g"}}, 1
 		return []gen.Ladder{
-			{Alpha: gen.SigmaFull(), Depth: 3, Funcs: gen.FuncSuffixes(), FuncDepth: 2},
-			{Alpha: gen.SigmaMid(), Depth: 4, MinPrefix: 3, CoreDocs: true},
-			{Alpha: gen.SigmaSmall(), Depth: 5, MinPrefix: 4, CoreDocs: true},
-			{Alpha: gen.AtomFilters(true), Depth: 1, Fixed: []gen.Step{gen.Name("c")}, Funcs: [][]string{{"g"}}, FuncDepth: 1},
+			// short paths on the larger documents, both decodings
+			{Alpha: gen.SigmaFull(), Depth: 2, Funcs: gen.FuncSuffixes(), FuncDepth: 2},
+			// deeper paths on the documents of <=4 nodes
+			{Alpha: gen.SigmaFull(), Depth: 3, MinPrefix: 2, Modes: []int{modeFloat}, SmallDocs: true},
+			{Alpha: gen.SigmaMid(), Depth: 4, MinPrefix: 3, Modes: []int{modeFloat}, SmallDocs: true},
+			{Alpha: gen.SigmaSmall(), Depth: 5, MinPrefix: 4, Modes: []int{modeFloat}, SmallDocs: true},
+			atoms,
 		}
 	}
 	return []gen.Ladder{
 		{Alpha: gen.SigmaFull(), Depth: 2, Funcs: gen.FuncSuffixes(), FuncDepth: 2},
 		{Alpha: gen.SigmaMid(), Depth: 4, MinPrefix: 2, Modes: []int{modeFloat}, CoreDocs: true},
 		// every filter atom (and pairwise combinations) applied to the member documents
-		{Alpha: gen.AtomFilters(true), Depth: 1, Fixed: []gen.Step{gen.Name("c")}},
+		atoms,
 	}
 }
 
